@@ -394,7 +394,7 @@ fn pool() -> Vec<PoolRow> {
         g("0378-0379,UNASSIGNED,a or b,c", 0x378, Some(0x379), 6, None, "a or b,c"),
     ];
     for (r, w) in malformed_rows().into_iter().filter(|(_, w)| {
-        matches!(*w, "property field deleted" | "description field deleted (two fields)" | "property misspelt" | "dangling or" | "non-hex letter" | "above U+10FFFF" | "three bounds" | "empty row" | "no commas")
+        matches!(*w, "property field deleted" | "description field deleted (two fields)" | "property misspelt" | "dangling or" | "unknown second name" | "unknown first name" | "non-hex letter" | "above U+10FFFF" | "three bounds" | "empty row" | "no commas")
     }) {
         v.push(PoolRow::Bad(r, w));
     }
